@@ -1222,6 +1222,13 @@ def c16(tier, seed):
     scs += known_scenarios("C16", "flatten")
     scs += fixed_scenarios("C16", "flatten")
     simple_validate("C16", v, scs, "all", "Trace_Flatten", sigfn=lambda sc, tup: {"fam": "flatten", "what": tup[3]}, timeout=3000)
+    # the consequence clause, observed: filling (or clipping by) the flattened path (tolerance 1/64: deviation <= 1/8 px)
+    # is decided per pixel by the curve oracle of the ORIGINAL path (Curve.ClassifyFill, margin 1 + sqrt(1/2) px)
+    fl = drive("C16", "curve", seed + 16, 1200 if th else 200)
+    for sc in fl:
+        sc["id"] = "flatfill-%s" % sc["id"]
+        sc["flatten_tol"] = [1, 64]
+    simple_validate("C16", v, fl, "flatfill", "Trace_Curve", sigfn=lambda sc, tup: {"fam": "flatfill", "kind": sc.get("kind")}, timeout=6000)
     v.samples = [scs[0], scs[-1]]
     return v.finish()
 
